@@ -105,6 +105,20 @@ def rule_obligations():
         detail6 = ("the directory listing is consumed as map(partial(path.join, input_mapping), listdir(input_mapping)) and mapped through file_to_input_mapping: every file contributes" if ok6
                    else "the directory listing is consumed as: %s" % [u[:160] for u in ups])
     obs.append(("gen/directory-mode-hands-every-listed-file-to-file_to_input_mapping", ok6, detail6))
+    # G7: parse kind `infer` (the CLI default) picks the parser of each entry: a class is a SQLAlchemy model when ANY of its named
+    # bases is `Base` -- the test quantifies over all of node.bases (any(...)), it does not stop at the first one
+    inf, _s, _p = extract.find_def("cdd.shared.parse.utils.parser_utils", "infer")
+    ok7, detail7 = None, "infer not found"
+    if inf is not None:
+        branches = [n for n in ast.walk(inf) if isinstance(n, ast.If) and "ClassDef" in ast.unparse(n.test) and ast.unparse(n.test).startswith("isinstance(node")]
+        ok7, detail7 = None, "the ClassDef branch of infer was not found"
+        if len(branches) == 1:
+            inner = [n for n in branches[0].body if isinstance(n, ast.If)]
+            tests = [n.test for n in inner if any(isinstance(r, ast.Return) and isinstance(r.value, ast.Constant) and r.value.value == "sqlalchemy" for r in n.body)]
+            ok7 = len(tests) == 1 and isinstance(tests[0], ast.Call) and ast.unparse(tests[0].func) == "any" and "node.bases" in ast.unparse(tests[0]) and "'Base'" in ast.unparse(tests[0])
+            detail7 = ("infer answers 'sqlalchemy' under any(... 'Base' ... node.bases ...): every named base is looked at" if ok7
+                       else "infer answers 'sqlalchemy' under: %s" % [ast.unparse(t)[:160] for t in tests])
+    obs.append(("infer/sqlalchemy-when-any-base-is-Base", ok7, detail7))
     return obs
 
 
@@ -147,6 +161,17 @@ def rule_replay(name):
             bad = [w for k, w in gen_case(case) if k != "raises"]
             if bad:
                 return {"case": list(case), "what": bad[0]}
+        return None
+    if name.startswith("infer/"):
+        from cdd.shared.parse.utils.parser_utils import infer
+
+        for src, want in (("class Session(TimestampMixin, Base):\n    __tablename__ = 's'\n    id = Column(Integer, primary_key=True)\n", "sqlalchemy"),
+                          ("class Session(Base, TimestampMixin):\n    __tablename__ = 's'\n    id = Column(Integer, primary_key=True)\n", "sqlalchemy"),
+                          ("class A(mixins.Audit, Other, Base):\n    __tablename__ = 'a'\n    id = Column(Integer, primary_key=True)\n", "sqlalchemy"),
+                          ("class Plain(object):\n    x: int = 1\n", "class_"), ("class Plain(Mixin):\n    x: int = 1\n", "class_")):
+            got = infer(ast.parse(src).body[0])
+            if got != want:
+                return {"case": ["infer", src.split(":")[0]], "what": "infer(<%s>) answers %r, the entry is a %s: gen --parse infer then runs the wrong parser over it and the generated symbol no longer has the entry's interface" % (src.split(":")[0], got, want)}
         return None
     if name.startswith("get_functions_and_classes/") or name.startswith("get_emit_kwarg/"):
         # up to 8 entries: the last three have a private, a lower-case and a one-letter name
